@@ -161,12 +161,125 @@ Proof.
   destruct SD as (_ & _ & _ & Hturn & _). rewrite <- E4, Ro. apply Hturn. exact Hr0.
 Qed.
 
+(* the structure from_circuit returns, WITHOUT the hypothesis on the orientations (orient_pre): when
+   the constructor and check() accept a legal circuit of the domain, the structure is the one
+   from_circuit_accepts_legal describes (same proof; the orientation test of check() only decides
+   whether a structure is returned, not which) *)
+Lemma from_circuit_structure_rows c rh s :
+  std_design c rh -> rows c <> [] -> legal c -> from_circuit c = DOk s ->
+  Inv s /\ d_loose s = [] /\
+  map row_geom (d_rows s) = map seg_geom (sort_rows (dp_rows c rh)) /\
+  (forall i k, nth_error (cells c) i = Some k -> kept rh k ->
+     exists dr, In dr (d_rows s) /\ dr_y dr = c_y k /\ In (cell_image i k) (dr_cells dr)) /\
+  (forall dr p, In dr (d_rows s) -> In p (dr_cells dr) ->
+     exists k, nth_error (cells c) (p_id p) = Some k /\ kept rh k /\ p = cell_image (p_id p) k /\ dr_y dr = c_y k).
+Proof.
+  intros SD Hrows HL Hs.
+  assert (HRH : row_height c = Some rh).
+  { destruct SD as (_ & Hheight & _). apply row_height_uniform; assumption. }
+  set (rws := sort_rows (dp_rows c rh)). set (ds := map (dcell_of rh) (cells c)).
+  assert (Hds : forall i d, nth_error ds i = Some d -> dc_w d <> -1 ->
+                            exists k, nth_error (cells c) i = Some k /\ d = dcell_of rh k /\ kept rh k).
+  { intros i d Hi Hw. apply nth_error_map_inv in Hi as (k & Hk & ->). exists k.
+    split; [exact Hk|]. split; [reflexivity|]. apply dp_width_not_ignored. exact Hw. }
+  destruct (locate_all_ok rws ds O) as (asg & Hasg).
+  { intros i d Hi Hw. destruct (Hds i d Hi Hw) as (k & Hk & -> & Hkept).
+    destruct (kept_located c rh (0 + i) k SD HRH HL (nth_error_In _ _ Hk) Hkept) as (j & s0 & L & _).
+    exists j. exact L. }
+  destruct (locate_all_spec rws ds O asg Hasg) as (Hinc & Hsnd & Hcmp).
+  assert (Hcell : forall j p, In (j, p) asg ->
+            exists k s0, nth_error (cells c) (p_id p) = Some k /\ kept rh k /\ p = cell_image (p_id p) k /\
+                        nth_error rws j = Some s0 /\ minY (rr s0) = c_y k /\ minX (rr s0) <= c_x k /\
+                        c_x k + placed_w k <= maxX (rr s0) /\ 0 < placed_w k).
+  { intros j p Hin. destruct (Hsnd j p Hin) as (i & d & Hi & Hw & -> & L). cbn [Nat.add] in *.
+    destruct (Hds i d Hi Hw) as (k & Hk & -> & Hkept). apply locate_sound in L as (s0 & N & Y & X0 & X1).
+    cbn [dcell_of dc_x dc_y dc_w] in Y, X0, X1. rewrite (dp_width_kept _ _ Hkept) in X1.
+    exists k, s0. cbn [pcell_of p_id]. split; [exact Hk|]. split; [exact Hkept|].
+    split; [apply pcell_of_kept; exact Hkept|]. split; [exact N|]. repeat split; try assumption.
+    eapply kept_placed_w_pos; [exact SD|eapply nth_error_In; exact Hk|exact Hkept]. }
+  assert (Hrow : forall j s0, nth_error rws j = Some s0 -> chain (minX (rr s0)) (maxX (rr s0)) (row_cells asg j)).
+  { intros j s0 N. pose proof (sorted_rows_shape c rh s0 SD (nth_error_In _ _ N)) as (Sh & Sx & r & Hr & Ro & Ins & Sy).
+    unfold row_cells. apply sort_chain; [lia| |].
+    + rewrite Forall_forall. intros p Hp. apply in_map_iff in Hp as ([j' p'] & E & Hin). cbn [snd] in E. subst p'.
+      apply filter_In in Hin as [Hin Hj]. cbn [fst] in Hj. apply Nat.eqb_eq in Hj. subst j'.
+      destruct (Hcell j p Hin) as (k & s' & _ & _ & -> & N' & _ & X0 & X1 & W). rewrite N in N'. injection N' as <-.
+      cbn [cell_image p_x p_w]. lia.
+    + apply (pwx_of_ids _ O); [apply ids_inc_filter; exact Hinc|].
+      assert (Hin' : forall p, In p (map snd (filter (fun q : nat * pcell => Nat.eqb (fst q) j) asg)) -> In (j, p) asg).
+      { intros p Hp. apply in_map_iff in Hp as ([j' p'] & E & Hin). cbn [snd] in E. subst p'.
+        apply filter_In in Hin as [Hin Hj]. cbn [fst] in Hj. apply Nat.eqb_eq in Hj. subst j'. exact Hin. }
+      intros a b Ha Hb Hne. apply Hin' in Ha, Hb.
+      destruct (Hcell j a Ha) as (ka & sa & Hka & [Fa Ha'] & Ea & Na & Ya & _).
+      destruct (Hcell j b Hb) as (kb & sb & Hkb & [Fb Hb'] & Eb & Nb & Yb & _).
+      rewrite N in Na, Nb. injection Na as <-. injection Nb as <-.
+      assert (D : disjoint_rects (placement_of ka) (placement_of kb)).
+      { unfold legal in HL. rewrite HRH in HL. destruct HL as (_ & _ & Hdis). unfold movable in Hdis.
+        apply (pd_filter_nth placement_of (fun k => negb (c_fixed k)) (cells c) Hdis (p_id a) (p_id b)); try assumption.
+        - rewrite Fa. reflexivity.
+        - rewrite Fb. reflexivity. }
+      rewrite !placement_of_eq in D. unfold disjoint_rects in D. cbn [minX maxX minY maxY] in D.
+      rewrite Ea, Eb. unfold xdisj. cbn [cell_image p_x p_w]. destruct SD as (Hrh & _). lia. }
+  set (drs := build_rows rws 0 asg).
+  assert (Hdr : forall dr, In dr drs -> exists j s0, nth_error rws j = Some s0 /\ dr = mk_drow s0 (row_cells asg j)).
+  { intros dr Hdr. apply build_rows_In in Hdr as (j & s0 & N & ->). exists j, s0. split; [exact N|reflexivity]. }
+  assert (F1 : forallb (fun r => no_overlap (dr_cells r)) drs = true).
+  { apply forallb_forall. intros dr Hin. destruct (Hdr dr Hin) as (j & s0 & N & ->). cbn [mk_drow dr_cells].
+    eapply chain_no_overlap. exact (Hrow j s0 N). }
+  assert (F2 : forallb (fun r => check_chain (dr_min r) (dr_max r) (dr_cells r)) drs = true).
+  { apply forallb_forall. intros dr Hin. destruct (Hdr dr Hin) as (j & s0 & N & ->). cbn [mk_drow dr_cells dr_min dr_max].
+    apply chain_check_chain. exact (Hrow j s0 N). }
+  assert (Es : s = {| d_rows := drs; d_loose := [] |}).
+  { unfold from_circuit in Hs. destruct (rows c) as [|r0 rs] eqn:ER; [congruence|]. rewrite HRH in Hs.
+    unfold construct in Hs. fold ds in Hs. fold rws in Hs. rewrite Hasg in Hs. fold drs in Hs. rewrite F1, F2 in Hs.
+    cbn [negb] in Hs. destruct (negb _) in Hs; [discriminate|]. injection Hs as <-. reflexivity. }
+  subst s. cbn [d_rows d_loose]. split.
+  { split; cbn [d_rows d_loose]; [|constructor]. rewrite Forall_forall. intros dr Hin.
+    destruct (Hdr dr Hin) as (j & s0 & N & ->). unfold row_ok. cbn [mk_drow dr_cells dr_min dr_max].
+    exact (Hrow j s0 N). }
+  split; [reflexivity|]. split; [apply build_rows_geom|]. split.
+  - intros i k Hk Hkept.
+    assert (Hi : nth_error ds i = Some (dcell_of rh k)) by (unfold ds; apply map_nth_error; exact Hk).
+    destruct (Hcmp i _ Hi) as (j & Hin).
+    { cbn [dcell_of dc_w]. rewrite (dp_width_kept _ _ Hkept).
+      pose proof (kept_placed_w_pos c rh k SD (nth_error_In _ _ Hk) Hkept). lia. }
+    cbn [Nat.add] in Hin. rewrite (pcell_of_kept _ _ _ Hkept) in Hin.
+    destruct (Hcell j _ Hin) as (k' & s0 & Hk' & _ & _ & N & Y & _). cbn [cell_image p_id] in Hk'.
+    rewrite Hk in Hk'. injection Hk' as <-.
+    exists (mk_drow s0 (row_cells asg j)). split; [|split].
+    + apply build_rows_In. exists j, s0. split; [exact N|reflexivity].
+    + cbn [mk_drow dr_y]. exact Y.
+    + cbn [mk_drow dr_cells]. apply row_cells_In. exact Hin.
+  - intros dr p Hin Hp. destruct (Hdr dr Hin) as (j & s0 & N & ->). cbn [mk_drow dr_cells dr_y] in *.
+    apply row_cells_In in Hp. destruct (Hcell j p Hp) as (k & s' & Hk & Hkept & E & N' & Y & _).
+    rewrite N in N'. injection N' as <-. exists k. tauto.
+Qed.
+
+Lemma from_circuit_structure c rh s :
+  std_design c rh -> legal c -> from_circuit c = DOk s ->
+  Inv s /\ d_loose s = [] /\
+  map row_geom (d_rows s) = map seg_geom (sort_rows (dp_rows c rh)) /\
+  (forall i k, nth_error (cells c) i = Some k -> kept rh k ->
+     exists dr, In dr (d_rows s) /\ dr_y dr = c_y k /\ In (cell_image i k) (dr_cells dr)) /\
+  (forall dr p, In dr (d_rows s) -> In p (dr_cells dr) ->
+     exists k, nth_error (cells c) (p_id p) = Some k /\ kept rh k /\ p = cell_image (p_id p) k /\ dr_y dr = c_y k).
+Proof.
+  intros SD HL Hs. destruct (rows c) as [|r0 rs] eqn:ER.
+  - assert (EM : movable c = []) by (unfold legal, row_height in HL; rewrite ER in HL; exact HL).
+    rewrite (from_circuit_norows c ER EM) in Hs. injection Hs as <-. cbn [d_rows d_loose map].
+    split; [split; constructor|]. split; [reflexivity|]. split.
+    + unfold dp_rows, compute_rows. rewrite ER. reflexivity.
+    + split; [|intros dr p []]. intros i k Hk [Hfx _]. exfalso.
+      assert (H : In k (movable c)) by (apply movable_In; split; [eapply nth_error_In; exact Hk|exact Hfx]).
+      rewrite EM in H. destruct H.
+  - apply from_circuit_structure_rows; try assumption. rewrite ER. discriminate.
+Qed.
+
 (* base case *)
 Lemma Rel_from_circuit c rh s :
-  std_design c rh -> legal c -> orient_pre c rh -> from_circuit c = DOk s -> Inv s /\ d_loose s = [] /\ Rel c rh s.
+  std_design c rh -> legal c -> from_circuit c = DOk s -> Inv s /\ d_loose s = [] /\ Rel c rh s.
 Proof.
-  intros SD HL HO Hs. destruct (from_circuit_accepts_legal c rh SD HL HO) as (s' & Hs' & HI & Hl & Hg & Hin & Hall).
-  rewrite Hs in Hs'. injection Hs' as <-. split; [exact HI|]. split; [exact Hl|]. split; [exact Hg|]. split.
+  intros SD HL Hs. destruct (from_circuit_structure c rh s SD HL Hs) as (HI & Hl & Hg & Hin & Hall).
+  split; [exact HI|]. split; [exact Hl|]. split; [exact Hg|]. split.
   - intros p Hp. unfold cells_of in Hp. rewrite Hl, app_nil_r in Hp. apply in_flat_map in Hp as (dr & Hdr & Hp).
     destruct (Hall dr p Hdr Hp) as (k & Hk & Hkept & E & _). exists k. rewrite E. cbn [cell_image p_id p_w p_pol p_o].
     repeat split; try assumption; try reflexivity; apply Hkept.
@@ -651,11 +764,11 @@ Qed.
 (* C02, main: every state reachable from the structure of a legal circuit by a history of moves and of
    shift passes satisfying their constraints, in which no cell is left unplaced, exports a legal circuit *)
 Theorem write_back_legal c rh s ops :
-  std_design c rh -> legal c -> orient_pre c rh -> from_circuit c = DOk s ->
+  std_design c rh -> legal c -> from_circuit c = DOk s ->
   dshifts_ok s ops -> d_loose (run_dops s ops) = [] ->
   legal (write_back c (run_dops s ops)).
 Proof.
-  intros SD HL HO Hs HS Hl. destruct (Rel_from_circuit c rh s SD HL HO Hs) as (HI & _ & HR).
+  intros SD HL Hs HS Hl. destruct (Rel_from_circuit c rh s SD HL Hs) as (HI & _ & HR).
   apply (exposed_legal c rh); try assumption.
   - apply run_dops_rel; assumption.
   - apply run_dops_inv; assumption.
@@ -663,12 +776,12 @@ Qed.
 
 (* the optimiser's own moves: swaps, inserts and shifts with arbitrary arguments *)
 Theorem write_back_legal_closed c rh s ops :
-  std_design c rh -> legal c -> orient_pre c rh -> from_circuit c = DOk s ->
+  std_design c rh -> legal c -> from_circuit c = DOk s ->
   forallb closed_dop ops = true -> dshifts_ok s ops ->
   legal (write_back c (run_dops s ops)).
 Proof.
-  intros SD HL HO Hs HC HS. apply (write_back_legal c rh s ops); try assumption.
-  rewrite (closed_run_loose ops s HC). destruct (Rel_from_circuit c rh s SD HL HO Hs) as (_ & Hl & _). exact Hl.
+  intros SD HL Hs HC HS. apply (write_back_legal c rh s ops); try assumption.
+  rewrite (closed_run_loose ops s HC). destruct (Rel_from_circuit c rh s SD HL Hs) as (_ & Hl & _). exact Hl.
 Qed.
 
 (* ------------------------------------------------------------------ *)
@@ -699,16 +812,16 @@ Proof.
 Qed.
 
 Theorem write_back_frame c rh s ops :
-  std_design c rh -> legal c -> orient_pre c rh -> from_circuit c = DOk s ->
+  std_design c rh -> legal c -> from_circuit c = DOk s ->
   rows (write_back c (run_dops s ops)) = rows c /\
   Forall2 same_frame (cells c) (cells (write_back c (run_dops s ops))) /\
   (forall i k, nth_error (cells c) i = Some k -> (c_fixed k = true \/ placed_h k <> rh) ->
                nth_error (cells (write_back c (run_dops s ops))) i = Some k).
 Proof.
-  intros SD HL HO Hs. split; [reflexivity|]. split; [apply map_from_same_frame|].
+  intros SD HL Hs. split; [reflexivity|]. split; [apply map_from_same_frame|].
   intros i k Hk Hn. rewrite (write_back_nth_fwd c _ i k Hk). f_equal.
   apply (export_not_kept c rh); try assumption.
-  apply run_dops_rel; [exact SD|]. exact (proj2 (proj2 (Rel_from_circuit c rh s SD HL HO Hs))).
+  apply run_dops_rel; [exact SD|]. exact (proj2 (proj2 (Rel_from_circuit c rh s SD HL Hs))).
 Qed.
 
 (* successive exports into the same circuit: the last one wins (the C++ exports into circuit_ at every
@@ -800,7 +913,7 @@ Theorem write_back_orient_ok before c rh s ops :
   orient_ok before (write_back c (run_dops s ops)).
 Proof.
   intros SD HU HL HO Hs HS HA Hl.
-  destruct (Rel_from_circuit c rh s SD HL (orient_ok_gives_pre before c rh SD HO) Hs) as (HI & _ & HR).
+  destruct (Rel_from_circuit c rh s SD HL Hs) as (HI & _ & HR).
   destruct (from_circuit_after_legalization before c rh SD HL HO) as (s0 & Hs0 & _ & HOI).
   rewrite Hs in Hs0. injection Hs0 as <-.
   apply (exposed_orient_ok before c rh); try assumption.
@@ -817,16 +930,16 @@ Proof.
   intros SD HU HL HO Hs HC HS. apply (write_back_orient_ok before c rh s ops); try assumption.
   - apply closed_dhist_allowed. exact HC.
   - rewrite (closed_run_loose ops s HC).
-    exact (proj1 (proj2 (Rel_from_circuit c rh s SD HL (orient_ok_gives_pre before c rh SD HO) Hs))).
+    exact (proj1 (proj2 (Rel_from_circuit c rh s SD HL Hs))).
 Qed.
 
 (* successive exports along a run: exporting the state after ops2 into the circuit that already
    received the state after ops1 gives the same circuit as exporting into the original one *)
 Theorem write_back_twice c rh s ops1 ops2 :
-  std_design c rh -> legal c -> orient_pre c rh -> from_circuit c = DOk s -> d_loose (run_dops s ops2) = [] ->
+  std_design c rh -> legal c -> from_circuit c = DOk s -> d_loose (run_dops s ops2) = [] ->
   write_back (write_back c (run_dops s ops1)) (run_dops s ops2) = write_back c (run_dops s ops2).
 Proof.
-  intros SD HL HO Hs Hl. pose proof (proj2 (proj2 (Rel_from_circuit c rh s SD HL HO Hs))) as HR.
+  intros SD HL Hs Hl. pose proof (proj2 (proj2 (Rel_from_circuit c rh s SD HL Hs))) as HR.
   apply (write_back_overwrites c rh); [apply run_dops_rel; assumption|apply run_dops_rel; assumption|exact Hl].
 Qed.
 
@@ -838,7 +951,30 @@ Example write_back_unplaced_refuted :
     legalb (write_back ex_dinit (run_dops s [DMop (MUnplace 1); DMop (MInsert 5 0 None)])) = false.
 Proof. eexists. split; [vm_compute; reflexivity|]. split; [vm_compute; discriminate|vm_compute; reflexivity]. Qed.
 
+(* everything together, in the form of the property: after legalization (legal c, orient_ok before c)
+   fromIspdCircuit does not fail, and whatever the optimiser then does with swaps, inserts and shift
+   passes (arbitrary arguments; shift passes satisfying their constraints), the circuit it exposes is
+   legal, has the cells it does not optimise exactly where legalization put them, and -- when the rows
+   have a known orientation -- carries the prescribed orientations *)
+Theorem detailed_exposes_legal before c rh :
+  std_design c rh -> legal c -> orient_ok before c ->
+  exists s, from_circuit c = DOk s /\
+    forall ops, forallb closed_dop ops = true -> dshifts_ok s ops ->
+      legal (write_back c (run_dops s ops)) /\
+      (forall i k, nth_error (cells c) i = Some k -> (c_fixed k = true \/ placed_h k <> rh) ->
+                   nth_error (cells (write_back c (run_dops s ops))) i = Some k) /\
+      ((forall r, In r (rows c) -> ro r <> oUNKNOWN) -> orient_ok before (write_back c (run_dops s ops))).
+Proof.
+  intros SD HL HO.
+  destruct (from_circuit_after_legalization before c rh SD HL HO) as (s & Hs & _). exists s. split; [exact Hs|].
+  intros ops HC HS. split; [|split].
+  - apply (write_back_legal_closed c rh); assumption.
+  - exact (proj2 (proj2 (write_back_frame c rh s ops SD HL Hs))).
+  - intros HU. apply (write_back_orient_ok_closed before c rh); assumption.
+Qed.
+
 Print Assumptions write_back_legal.
+Print Assumptions detailed_exposes_legal.
 Print Assumptions write_back_legal_closed.
 Print Assumptions write_back_frame.
 Print Assumptions write_back_twice.
